@@ -310,8 +310,37 @@ func runC18(r *Run) {
 
 	r.rule("R5", "host-key normaliser agreement (E5)", func() {
 		// does value v derive from net.SplitHostPort (directly or through a module helper that calls it)?
+		// … or through a helper that separates the port itself: it cuts its argument at a ':' it searched for
+		// (whether that cut is right for IPv6 literals is R12's question, not this rule's)
+		cutsAtColon := func(fn *ssa.Function) bool {
+			for _, b := range fn.Blocks {
+				for _, in := range b.Instrs {
+					sl, ok := in.(*ssa.Slice)
+					if !ok || !isByteSeq(sl.X.Type()) {
+						continue
+					}
+					for _, bound := range []ssa.Value{sl.Low, sl.High} {
+						if bound != nil && dependsOn(bound, func(x ssa.Value) bool {
+							c, ok := x.(*ssa.Call)
+							if !ok || len(c.Call.Args) != 2 {
+								return false
+							}
+							n := calleeName(&c.Call)
+							if !strings.Contains(n, "Index") || !(strings.HasPrefix(n, "bytes.") || strings.HasPrefix(n, "strings.")) {
+								return false
+							}
+							k, isInt := constInt(asConst(stripValue(c.Call.Args[1])))
+							return (isInt && k == ':') || literalIs(c.Call.Args[1], ":")
+						}) != nil {
+							return true
+						}
+					}
+				}
+			}
+			return false
+		}
 		callsSplit := func(fn *ssa.Function) bool {
-			return fn != nil && len(callsMatching(fn, false, nameIs("net.SplitHostPort"))) > 0
+			return fn != nil && len(fn.Blocks) > 0 && (len(callsMatching(fn, false, nameIs("net.SplitHostPort"))) > 0 || cutsAtColon(fn))
 		}
 		var normalised func(fn *ssa.Function, v ssa.Value, depth int) (bool, bool)
 		normalised = func(fn *ssa.Function, v ssa.Value, depth int) (norm bool, decided bool) {
@@ -396,6 +425,81 @@ func runC18(r *Run) {
 			r.check(s.norm == anyNorm, fmt.Sprintf("hostCookies-key:%s:%s#%d", s.fn.Name(), s.kind, ord[s.fn.Name()+s.kind]), r.pos(s.in),
 				fmt.Sprintf("key normalisation (port stripped=%v) agrees with the other sites", s.norm),
 				fmt.Sprintf("%s indexes hostCookies with a key whose port is %s while other sites do the opposite: cookies stored for host:port are never found by lookups (which strip the port)", s.fn.Name(), map[bool]string{true: "stripped", false: "kept"}[s.norm]))
+		}
+	})
+
+	r.rule("R12", "the port is separated from a host by a port-aware split: the client package cuts a host at a ':' only through net.SplitHostPort or in a function that looks at the closing bracket of an IPv6 literal (E1, belief rule)", func() {
+		isColon := func(v ssa.Value) bool {
+			c := asConst(stripValue(v))
+			if c == nil {
+				return false
+			}
+			if k, ok := constInt(c); ok && k == ':' {
+				return true
+			}
+			s, ok := constString(c)
+			return ok && s == ":"
+		}
+		isColonSearch := func(x ssa.Value) bool {
+			c, ok := x.(*ssa.Call)
+			if !ok || len(c.Call.Args) != 2 {
+				return false
+			}
+			switch calleeName(&c.Call) {
+			case "bytes.IndexByte", "bytes.LastIndexByte", "strings.IndexByte", "strings.LastIndexByte", "bytes.Index", "bytes.LastIndex", "strings.Index", "strings.LastIndex":
+				return isColon(c.Call.Args[1]) || literalIs(c.Call.Args[1], ":")
+			}
+			return false
+		}
+		aware, cuts := 0, 0
+		r.P.AllFuncs(cliPkg, func(f *ssa.Function) {
+			aware += len(callsMatching(f, false, nameIs("net.SplitHostPort")))
+			looksAtBracket := false
+			for _, b := range f.Blocks {
+				for _, in := range b.Instrs {
+					if bo, ok := in.(*ssa.BinOp); ok && (bo.Op == token.EQL || bo.Op == token.NEQ) {
+						for _, o := range []ssa.Value{bo.X, bo.Y} {
+							if k, ok := constInt(asConst(stripValue(o))); ok && (k == ']' || k == '[') {
+								looksAtBracket = true
+							}
+						}
+					}
+					if c, ok := in.(*ssa.Call); ok {
+						for _, a := range c.Call.Args {
+							if k, ok := constInt(asConst(stripValue(a))); ok && k == ']' {
+								looksAtBracket = true
+							}
+							if literalIs(a, "]") {
+								looksAtBracket = true
+							}
+						}
+					}
+				}
+			}
+			for _, b := range f.Blocks {
+				for _, in := range b.Instrs {
+					sl, ok := in.(*ssa.Slice)
+					if !ok || !isByteSeq(sl.X.Type()) {
+						continue
+					}
+					for _, bound := range []ssa.Value{sl.Low, sl.High} {
+						if bound == nil || dependsOn(bound, isColonSearch) == nil {
+							continue
+						}
+						cuts++
+						if looksAtBracket {
+							aware++
+						}
+						r.check(looksAtBracket, fmt.Sprintf("%s:colon-cut#%d:bracket-aware", short(f.String()), cuts), r.pos(in), "the function that cuts at a ':' also looks at the bracket of an IPv6 literal",
+							"a host is cut at a ':' found by a plain search: for an IPv6 literal without a port the cut lands inside the address, so [2001:db8::1] and [2001:db8::2] share the jar key [2001:db8: and each receives the other's cookies")
+					}
+				}
+			}
+		})
+		r.count("plain colon cuts", cuts)
+		r.atLeast("port-aware host splits in the client package", aware, 2)
+		if cuts == 0 {
+			r.ok("client:no-plain-colon-cut", "", fmt.Sprintf("no host is cut at a ':' located by a plain search; %d port-aware splits", aware))
 		}
 	})
 
